@@ -43,6 +43,7 @@ def check(tier, seed):
     with C.WorkDir('C16') as wd:
         C.audit_sources()
         C.props_obligations(res, 'C16', wd)
+        C.tie_b_kernels(res, wd, ('nmea',))
         rng = C.rng_for(seed, 'C16')
         streams = []
         for _ in range(700 if tier == 'quick' else 30000):
